@@ -11,7 +11,7 @@ Local Open Scope list_scope.
 
 (* In document order, the reference occurrences of the changed tree are those of the tree:
    an occurrence whose key is [old] (a block reference by its resolved key, an inline note link
-   by `from_file_name(url)`) now has the key [new], with its kind and title — and its text,
+   by its url as the reader left it, `Key::name(url)`) now has the key [new], with its kind and title — and its text,
    for a block reference always, for an inline link iff the label repair is in — unchanged;
    every other occurrence is returned as it was. *)
 Definition C08_change_key_targets_stmt : Prop :=
